@@ -136,6 +136,10 @@ def step (s : St) (kind : String) (args impl : List String) : Option (St × Step
       let t := s.m.tors h
       if t.present ∧ !(m'.tors h).present then (if t.complete then "S" else "L") else "-"
     some ({ s with m := m' }, { obs := [], branch := s!"tick.{drops 0}{drops 1}" })
+  | ["notice", ht] => do
+    let h ← hash? ht
+    let t := s.m.tors h
+    pure ({ s with m := next s.cfg s.m (.notice h) }, { obs := [], branch := "notice." ++ torClass t })
   | ["rm", ht] => do
     let h ← hash? ht
     let t := s.m.tors h
